@@ -45,6 +45,11 @@ Theorem C02_wrong_type_inert : forall fail s i inf,
   sstep fail s i = add_log (set_ss s (upd (ss s) i (SDone RInvalid))) (EEnd i RInvalid).
 Proof. exact wrong_type_inert. Qed.
 
+(* the executable oracle evaluated on implementation logs accepts every log the model can
+   produce (flag: the actor is still polling with an empty mailbox) *)
+Theorem C02_oracle_sound : forall s, reachable s -> check_C02 (alive_idle s) (log s) = true.
+Proof. exact check_C02_sound. Qed.
+
 (* ---- statement pins ---- *)
 Check (C02_refines_fifo : forall s, reachable s ->
   handled s = firstn (length (handled s)) (accepted s) /\ NoDup (accepted s) /\ NoDup (handled s)).
@@ -84,3 +89,4 @@ Print Assumptions C02_rejected_never_handled.
 Print Assumptions C02_exactly_once_if_alive.
 Print Assumptions C02_real_time_order.
 Print Assumptions C02_wrong_type_inert.
+Print Assumptions C02_oracle_sound.
